@@ -71,9 +71,9 @@ LITERALS = [
     # a float literal beyond f64 (reads as infinity) and one below it (reads as 0.0)
     "let x = 1" + "0" * 309 + ".0;", "let x = 0." + "0" * 330 + "1;", "let x = 1" + "0" * 308 + ".0;",
     # non-ASCII text together with a character the printer escapes, in every place a string can stand
-    'let x = "é\"q";', 'let x = "日本\\";', 'let x = "😀\"\\é";', 'let x = {"é\"k" = 1};', 'let x = t."é\"k";', 'let x = "é\"@" % (1);',
-    'let x = include str "é\"f.txt";', 'let x = import "é\\g.ucg";', 'let x = fail "é\"m";', 'assert {ok = true, desc = "é\"d"};',
-    'let x = "é\"@{item}" % 1;', 'let x = "a" ~ "é\"r";', 'let x = "é\n\"";',
+    r'let x = "é\"q";', r'let x = "日本\\";', r'let x = "😀\"\\é";', r'let x = {"é\"k" = 1};', r'let x = t."é\"k";', r'let x = "é\"@" % (1);',
+    r'let x = include str "é\"f.txt";', r'let x = import "é\\g.ucg";', r'let x = fail "é\"m";', r'assert {ok = true, desc = "é\"d"};',
+    r'let x = "é\"@{item}" % 1;', r'let x = "a" ~ "é\"r";', r'let x = "é\n\"";',
 ]
 
 # Comment groups after the last statement, before a closing brace and in files that hold nothing else: 0..3 groups of
